@@ -25,6 +25,9 @@ PROGRAMS = [
     {"id": "nested", "text": "def f(a, *b, k=1, **c):\n    'doc'\n    return [i for i in b if i]\nclass K:\n    pass\n"},
     {"id": "bigint", "text": "a = 2 ** 70\nb = 18446744073709551616\nc = frozenset\nd = x in {1, 2, 3}\n"},
     {"id": "loop", "text": "for i in range(3):\n    if i:\n        continue\n    print(i)\n"},
+    # whitespace that a "helpful" clean-up of the source would destroy: blank-but-not-empty lines and
+    # trailing blanks inside a string literal, a tab, a form feed, a trailing comment
+    {"id": "whitespace", "text": 's = """first\n    \n\tthird  \n"""\nif s:\n    t = (1,\n\n         2)   # c\n\x0c\nu = 3\n'},
 ]
 LINE = re.compile(r"^\s*(?:\d+)?\s*(?:>>)?\s*\d+\s+([A-Z_][A-Z_0-9]*)\s*(?:\d+)?\s*(\(.*\))?\s*$")
 
